@@ -1408,6 +1408,10 @@ func (in *Interp) stdlib(fn *types.Func, args []interface{}) ([]interface{}, boo
 			}
 			return []interface{}{v, Nil{}}, true
 		}
+	case "errors.New":
+		if a, ok := str(0); ok {
+			return []interface{}{&Struct{Type: "error", Fields: map[string]interface{}{"msg": a}}}, true
+		}
 	case "strconv.Atoi":
 		if a, ok := str(0); ok {
 			v, err := strconv.Atoi(a)
